@@ -99,3 +99,37 @@ Theorem C17_ubj_parser_reset : forall b v, all_bytes b = true ->
   exists evs vt, UP.urun_parse None b = Ok (evs, UP.unilE, SF.Ubjson.ConformanceProofs.uset_vtype UP.uparser0 vt).
 Proof. exact UV.C17_ubj_accept_reset. Qed.
 Print Assumptions C17_ubj_parser_reset.
+
+(* JSON parser (after the repair of finalize, DESIGN.md section 9).  [fresh_like p]: start state, empty
+   state stack, not inside an escape, EMPTY literal buffer, no latched error.  After any
+   accepted Parse or Write ... end - any visitor behaviour - the parser is fresh_like; and on
+   a fresh_like parser EVERY further use (Parse b, or Write c1 .. Write cn, end) returns, with
+   exactly the events and verdict a new parser gives, and leaves the parser fresh_like again
+   when accepted: by induction, a parser reused for any sequence of accepted documents through
+   either entry point behaves as a new one on the next document.  No side conditions. *)
+From SF Require Json.Parse Json.ParseVisitorProofs.
+Module JP := SF.Json.Parse.
+Module JV := SF.Json.ParseVisitorProofs.
+Theorem C17_json_parser_fresh_after_parse : forall (pf : bytes -> option Z) vfail b evs p,
+  JP.jrun_parse pf vfail b = Ok (evs, JP.jpnil, p) -> JV.fresh_like p.
+Proof. exact JV.C17_json_run_parse_fresh. Qed.
+Print Assumptions C17_json_parser_fresh_after_parse.
+
+Theorem C17_json_parser_fresh_after_writes : forall (pf : bytes -> option Z) vfail chunks evs p,
+  JP.jrun_chunks pf vfail chunks = Ok (evs, JP.jpnil, p) -> JV.fresh_like p.
+Proof. exact JV.C17_json_run_chunks_fresh. Qed.
+Print Assumptions C17_json_parser_fresh_after_writes.
+
+Theorem C17_json_parser_session_step : forall (pf : bytes -> option Z) p s op, JV.fresh_like p ->
+  exists p1 p2 s' e', JV.jop_run pf p s op = Ok (p1, s', e') /\ JV.jop_run pf JP.jparser0 s op = Ok (p2, s', e') /\
+                      (e' = JP.jpnil -> JV.fresh_like p1).
+Proof. exact JV.C17_json_session_step. Qed.
+Print Assumptions C17_json_parser_session_step.
+
+(* the history that failed before the repair: Parse of a number, then Write of an object *)
+Theorem C17_json_parser_write_after_parse : forall (pf : bytes -> option Z) vfail b evs p s chunks,
+  JP.jrun_parse pf vfail b = Ok (evs, JP.jpnil, p) ->
+  exists p1 p2 s' e', JP.jp_writes pf p s chunks = Ok (p1, s', e') /\
+                      JP.jp_writes pf JP.jparser0 s chunks = Ok (p2, s', e').
+Proof. exact JV.C17_json_write_reusable. Qed.
+Print Assumptions C17_json_parser_write_after_parse.
